@@ -13,7 +13,8 @@ for s in $seeds; do
   (cd $W/r && git init -q . 2>/dev/null && git apply -p1 "$pf" 2>/dev/null) || { echo "$s: patch does not apply to the current tree"; continue; }
   g1=$(VERIF_REPO=$W/r python3 tools/gen_layout.py | grep -c ERROR)
   g2=$(VERIF_REPO=$W/r python3 tools/gen_iters.py | grep -c ERROR)
-  b=$(cd lean && lake build MultiProofs.GenTie MultiProofs.GenTieIter 2>&1 | grep -c "^error")
-  if [ "$g1$g2" != "00" ]; then echo "$s: BROKEN (translator error: layout=$g1 iters=$g2)"; elif [ "$b" != "0" ]; then echo "$s: BROKEN (tie proof fails)"; else echo "$s: tie holds"; fi
+  g3=$(VERIF_REPO=$W/r python3 tools/gen_store.py | grep -c ERROR)
+  b=$(cd lean && lake build MultiProofs.GenTie MultiProofs.GenTieIter MultiProofs.GenTieStore 2>&1 | grep -c "^error")
+  if [ "$g1$g2$g3" != "000" ]; then echo "$s: BROKEN (translator error: layout=$g1 iters=$g2 store=$g3)"; elif [ "$b" != "0" ]; then echo "$s: BROKEN (tie proof fails)"; else echo "$s: tie holds"; fi
 done
 rm -rf $W
